@@ -147,17 +147,37 @@ def r1(ctx):
                 ok = True
             else:
                 for e, pol in facts(st.node, f.node):
-                    if isinstance(e, ast.Compare) and len(e.ops) == 1:
-                        l, r, op = e.left, e.comparators[0], e.ops[0]
-                        if not pol:
-                            continue
-                        if isinstance(op, (ast.Gt, ast.GtE)) and src(l) == src(v) and ap(r) == BASE:
-                            ok = True
-                        if isinstance(op, (ast.Lt, ast.LtE)) and src(r) == src(v) and ap(l) == BASE:
-                            ok = True
+                    if _vs_base(e, pol, v) in ("gt", "ge"):
+                        ok = True
         ctx.ob("C04.R1", key, ok, ctx.w(f, st.node),
                "the base may only move up (store guarded by `value > self._packet_id_base`): otherwise a later injection "
                "gets an ID at or below an earlier one and the deque is no longer ascending")
+        # ... and it must move up for EVERY larger ID: _packet_id_base is "the highest wire ID seen", which is what
+        # makes `_packet_id_base + 1` a fresh ID; any further condition on the update leaves used IDs above the base
+        if st.kind == "assign" and st.value is not None:
+            extra = [(e, pol) for e, pol in facts(st.node, f.node) if _vs_base(e, pol, st.value) not in ("gt", "ge", "ne")]
+            ctx.ob("C04.R1", f"{f.qual}: {st.path} follows every larger ID (no further condition)", not extra, ctx.w(f, st.node),
+                   f"update also requires {[norm(e) + ('' if p else ' (negated)') for e, p in extra]}: a wire ID that was "
+                   f"forwarded can stay above the base, and the next injected ID (base + 1) collides with / falls below it")
+
+
+def _vs_base(e, pol, value):
+    """Relation `value ? self._packet_id_base` that the fact (e, pol) states: 'gt' 'ge' 'lt' 'le' 'eq' 'ne' or None."""
+    if not (isinstance(e, ast.Compare) and len(e.ops) == 1):
+        return None
+    l, r, op = e.left, e.comparators[0], e.ops[0]
+    rel = {ast.Gt: "gt", ast.GtE: "ge", ast.Lt: "lt", ast.LtE: "le", ast.Eq: "eq", ast.NotEq: "ne"}.get(type(op))
+    if rel is None:
+        return None
+    if src(l) == src(value) and ap(r) == BASE:
+        pass
+    elif src(r) == src(value) and ap(l) == BASE:
+        rel = {"gt": "lt", "ge": "le", "lt": "gt", "le": "ge"}.get(rel, rel)
+    else:
+        return None
+    if not pol:
+        rel = {"gt": "le", "ge": "lt", "lt": "ge", "le": "gt", "eq": "ne", "ne": "eq"}[rel]
+    return rel
 
 
 # --------------------------------------------------------------------------- R2
@@ -291,6 +311,30 @@ def r2_early_exit(ctx, rule_id="C04.R2"):
                     exits.append(n)
         direction = "newest-first" if desc else "oldest-first"
         base_key = f"{f.qual}: for {elem} in {norm(loop.iter)}"
+        # the operand the element is compared with: if it is the running (already shifted) value, the walk must go the
+        # way that value moves - counting "injections at or below the running ID" while stepping up is only right
+        # oldest-first, while stepping down only newest-first (with a loop-invariant operand either order counts right)
+        steps = {}
+        for n in walk(loop):
+            if isinstance(n, ast.AugAssign) and isinstance(n.target, ast.Name) and isinstance(n.op, (ast.Add, ast.Sub)):
+                steps.setdefault(n.target.id, set()).add("up" if isinstance(n.op, ast.Add) else "down")
+            elif isinstance(n, ast.Assign):
+                for t in n.targets:
+                    if isinstance(t, ast.Name) and t.id != elem:
+                        steps.setdefault(t.id, set()).add("?")
+        for cmp_ in [n for n in walk(loop) if isinstance(n, ast.Compare) and len(n.ops) == 1
+                     and isinstance(n.ops[0], (ast.Lt, ast.LtE, ast.Gt, ast.GtE))]:
+            sides = [cmp_.left, cmp_.comparators[0]]
+            if not any(isinstance(x, ast.Name) and x.id == elem for x in sides):
+                continue
+            other = sides[1] if isinstance(sides[0], ast.Name) and sides[0].id == elem else sides[0]
+            moving = {nm.id: steps[nm.id] for nm in ast.walk(other) if isinstance(nm, ast.Name) and nm.id in steps}
+            for nm, dirs in moving.items():
+                okdir = dirs == ({"down"} if desc else {"up"})
+                ctx.ob(rule_id, f"{base_key}: `{norm(cmp_)}` compares with a running value that moves with the walk", okdir,
+                       ctx.w(f, cmp_), f"`{nm}` is stepped {sorted(dirs)} inside a {direction} walk: injections are compared "
+                                       f"with the already shifted value in the wrong order, so some that lie at or below the "
+                                       f"ID are not counted (compare with the unshifted ID, or walk the other way)")
         if not exits:
             ctx.ob(rule_id, f"{base_key}: visits every tracked injection", True, ctx.w(f, loop), "no early exit")
             continue
